@@ -48,8 +48,28 @@ def run_one(src):
     finally:
         subprocess.run(["git", "-C", "/repo", "worktree", "remove", "--force", wt], capture_output=True)
     return res
+def redo(names, j):
+    """re-run the check against already kept seeds (after the check was strengthened): writes result_after.json"""
+    srcs = []
+    for n in names:
+        d = f"{V}/seeded/{n}"
+        pid = n.split("-")[0]
+        tmp = tempfile.mkdtemp(prefix="redo_", dir="/tmp"); link = os.path.join(tmp, pid)
+        os.symlink(d, link); srcs.append((n, link))
+    with cf.ThreadPoolExecutor(max_workers=j) as ex:
+        for (n, link), res in zip(srcs, ex.map(run_one, [l for _, l in srcs])):
+            res["source"] = f"{V}/seeded/{n}"
+            json.dump(res, open(f"{V}/seeded/{n}/result_after.json", "w"), indent=1)
+            print(n, "AFTER: demo", res.get("demo_pristine_rc"), res.get("demo_patched_rc"), "check_rc", res.get("check_rc"),
+                  res.get("violation_kinds"), res.get("summary_line"), res.get("error", ""), flush=True)
+            shutil.rmtree(os.path.dirname(link), ignore_errors=True)
 def main():
     j = 3
+    if "--redo" in sys.argv:
+        i = sys.argv.index("--redo"); names = [a for a in sys.argv[i + 1:] if not a.startswith("-")]
+        if "-j" in sys.argv: j = int(sys.argv[sys.argv.index("-j") + 1])
+        names = [n for n in names if not n.isdigit()]
+        return redo(names, j)
     if "-j" in sys.argv: j = int(sys.argv[sys.argv.index("-j") + 1])
     todo = []
     done_src = set()
